@@ -11,6 +11,7 @@
      unhurried    no writer is slower than STALE_CREATE while an eviction round runs       (finding stale-writer-readable) *)
 From Coq Require Import List NArith ZArith String Bool Sorted Permutation.
 From EKW Require Import Shm.Lottery Shm.LotteryProofs Shm.Manager Shm.ManagerProofs Shm.ManagerLive Shm.ManagerBytes.
+From EKW Require Import Shm.ManagerReaders Shm.ManagerLocks Shm.ManagerLocksProofs.
 From EKW Require Shm.ManagerCheck.   (* not used here: keeps the correspondence checker's .vo in step with the model *)
 Import ListNotations.
 Open Scope string_scope.
@@ -104,6 +105,21 @@ Proof.
   - intros t b Hn Hg Hr Hd Hb. exact (last_close_purges s k ds rd t b Hn Hg Hl Hs Hr Hd Hb).
 Qed.
 
+(* the three statements above speak of Dataset.ongoing_reads; they are about the clients that hold the dataset because
+   that table is an exact account of them, after EVERY history (no side condition): a step changes the table of k exactly
+   as `table_after` says -- a granted get appends ONE id, the accepted close of a reader removes THAT id, nothing else
+   touches it (a dataset leaves the registry only with an empty table) --, the ids of ongoing reads are pairwise
+   distinct, the id handed out by a granted get is carried by no ongoing read, and the close of one reader leaves the
+   entry of every other one.  (A store that hands a new reader the id of a reader that is still open breaks this.) *)
+Theorem C09_reader_table_exact : forall cap ops o k,
+  let s := exec (init cap) ops in
+  readers_of k (fst (step s o)) = table_after k o (snd (step s o)) (readers_of k s) /\
+  NoDup (readers_of k s) /\
+  (forall now u shmid l rd, o = Get k now u -> snd (step s o) = RGot shmid l rd -> ~ In rd (readers_of k s)) /\
+  (forall rd a, o = Close k (Some rd) -> a <> rd -> In a (readers_of k s) -> snd (step s o) = ROk ->
+     In a (readers_of k (fst (step s o)))).
+Proof. exact reader_table_exact. Qed.
+
 (* ------------------------------------------------------------------ (4) eviction order *)
 (* the victims are the shortest prefix, reaching the amount (or everything), of: once-read datasets by creation
    time ascending, then many-read by last access ascending, then never-read by creation time descending *)
@@ -154,6 +170,30 @@ Theorem C09_lock_leak_before_fix_refuted :
     (forall amount2 now2, page_out_at_least_gen false amount2 now2 s' = s') /\
     lock (page_out_at_least_gen true amount now s) = false.
 Proof. exact lock_leak_before_fix. Qed.
+
+(* no request handler and no disk-job callback blocks: pageout_one (a plain, non re-entrant lock, the only blocking
+   primitive of the store -- Shm/ManagerLocks.v) is never taken by a thread that holds it, in any state, for any op; so
+   every callback runs to its end, counts down and releases the pageout lock (C09_lock_only_while_evicting) *)
+Theorem C09_handlers_never_block : forall s o, play false (step_events s o) = Some false.
+Proof. exact handlers_never_block. Qed.
+
+(* the section inside Manager.purge is entered exactly when purge gives space back, and purge called from INSIDE a
+   section under pageout_one would block for ever exactly then -- a case the callback of a failed page-out whose segment
+   still exists (page file not writable) reaches: that callback has to call purge before its own section, as it does *)
+Theorem C09_purge_only_outside_sections :
+  (forall k s, free (purge k s) = if purge_credits k s
+                                  then free s + match lookup k (dsets s) with Some ds => Z.of_N (d_size ds) | None => 0 end
+                                  else free s) /\
+  (forall k s, play false (purge_inside_section_events k s) = None <-> purge_credits k s = true) /\
+  (let s := exec (init 4) failed_pageout_witness in
+   exists jb, find_job 0%N (jobs s) = Some jb /\ j_kind jb = PageOut /\ j_phase jb = CbPending false /\
+     let s0 := with_jobs (drop_job 0%N (jobs s)) s in
+     purge_credits (j_key jb) s0 = true /\
+     play false (job_cb_events 0%N s) = Some false /\
+     play false (purge_inside_section_events (j_key jb) s0) = None).
+Proof.
+  split; [exact purge_section_iff_credit|]. split; [exact purge_inside_section_blocks|exact failed_pageout_reaches_purge_section].
+Qed.
 
 (* ------------------------------------------------------------------ non-vacuity *)
 (* capacity 4: a and b written and closed, b read once and closed; a reader holds a; c does not fit: b (idle) is evicted,
@@ -214,6 +254,32 @@ Proof.
   eexists. split; [vm_compute; reflexivity|]. vm_compute. reflexivity.
 Qed.
 
+(* three overlapping reads of one key closed out of order: A (id 1), B (id 2), A closes, C (id 3), B closes: C is still in
+   the table, so the purge is delayed and the pressure evicts nothing; the model refuses to hand C the id of B *)
+Definition ex9_readers : list op := [
+  Add 1%N 2%N 1; Write 1%N [10;11]%N; Close 1%N None;
+  Get 1%N 2 [1%N]; Get 1%N 3 [2%N]; Close 1%N (Some 1%N); Get 1%N 4 [3%N]; Close 1%N (Some 2%N) ].
+
+Example C09_reader_table_exact_nonvacuous :
+  readers_of 1%N (exec (init 4) (firstn 5 ex9_readers)) = [1%N; 2%N] /\
+  readers_of 1%N (exec (init 4) ex9_readers) = [3%N] /\
+  snd (step (exec (init 4) (firstn 6 ex9_readers)) (Get 1%N 4 [2%N])) = RErr "RuntimeError" /\
+  (let s := exec (init 4) (ex9_readers ++ [Purge 1%N; Add 2%N 4%N 5]) in
+   lookup 1%N (segs s) = Some [10;11]%N /\ jobs s = [] /\
+   exists ds, lookup 1%N (dsets s) = Some ds /\ d_delayed ds = true /\ d_status ds = InMemory) /\
+  (let s := exec (init 4) (ex9_readers ++ [Purge 1%N; Add 2%N 4%N 5; Close 1%N (Some 3%N)]) in
+   lookup 1%N (segs s) = None /\ lookup 1%N (dsets s) = None /\ free s = 4).
+Proof. vm_compute. repeat split; try reflexivity. eexists. repeat split; reflexivity. Qed.
+
+Example C09_handlers_never_block_nonvacuous :
+  (* a purge that returns space, the last close executing a delayed purge, both page-out callbacks *)
+  step_events (exec (init 4) (firstn 3 ex9)) (Purge 1%N) = [AcqOne; RelOne] /\
+  step_events (exec (init 4) (firstn 17 ex9)) (Close 1%N (Some 1%N)) = [AcqOne; RelOne] /\
+  step_events (exec (init 4) (firstn 12 ex9)) (JobCb 0%N) = [AcqOne; RelOne] /\
+  step_events (exec (init 4) failed_pageout_witness) (JobCb 0%N) = [AcqOne; RelOne; AcqOne; RelOne] /\
+  play false [AcqOne; AcqOne; RelOne; RelOne] = None.
+Proof. vm_compute. repeat split; reflexivity. Qed.
+
 Print Assumptions C09_bytes_preserved_partial.
 Print Assumptions C09_bytes_preserved_refuted.
 Print Assumptions C09_no_read_before_close_partial.
@@ -226,3 +292,6 @@ Print Assumptions C09_lottery_order.
 Print Assumptions C09_lock_only_while_evicting.
 Print Assumptions C09_waiting_request_starts_eviction.
 Print Assumptions C09_lock_leak_before_fix_refuted.
+Print Assumptions C09_reader_table_exact.
+Print Assumptions C09_handlers_never_block.
+Print Assumptions C09_purge_only_outside_sections.
